@@ -24,6 +24,7 @@ Later additions (each documented at its function; DESIGN.md sections 11-18):
   N24 a local that merely names `self.a.b` is that attribute      N26 `**extra` of a never-written empty literal dropped      N27 dead code after a jump
   N28 private NamedTuple records are tuples (fields unpacked)      N29 private slotted records are dicts      N30 a private field that is only a literal
   N31 new named constants read as their literals (specialise.py)   N32 bool(X) in test position is X      N33 `*t` of a local tuple display written out
+  N34 list(<display>) / tuple(<display>) is the display      N35 f(**{'k': v}) is f(k=v)
   (+ sa/specialise.py: opt-in options newer than the pinned tree are analysed at their default; sa/inline.py: helpers newer than the pinned tree substituted)
 
 Line numbers are kept (reports still point at the source line); printed constructs show the normal form.
@@ -335,6 +336,23 @@ class Normalise(ast.NodeTransformer):
     def visit_Call(self, n):
         # N14: list(chain.from_iterable(X)) / list(chain(*X))  ->  [x for sub in X for x in sub]   (one spelling of "flatten one level")
         self.generic_visit(n)
+        # N35: f(**{'k': v}) with literal identifier keys is f(k=v)
+        if any(k.arg is None and isinstance(k.value, ast.Dict) for k in n.keywords):
+            kws = []
+            for k in n.keywords:
+                if k.arg is None and isinstance(k.value, ast.Dict) and k.value.keys and all(
+                        isinstance(x, ast.Constant) and isinstance(x.value, str) and x.value.isidentifier() for x in k.value.keys):
+                    kws.extend(ast.copy_location(ast.keyword(arg=x.value, value=v_), k) for x, v_ in zip(k.value.keys, k.value.values))
+                else:
+                    kws.append(k)
+            names_ = [k.arg for k in kws if k.arg is not None]
+            if len(names_) == len(set(names_)):
+                n.keywords = kws
+        # N34: list(<display>) / tuple(<display>) is the list / tuple display of the same elements
+        if isinstance(n.func, ast.Name) and n.func.id in ("list", "tuple") and len(n.args) == 1 and not n.keywords and isinstance(n.args[0], (ast.Tuple, ast.List)) \
+                and not any(isinstance(e, ast.Starred) for e in n.args[0].elts):
+            cls_ = ast.List if n.func.id == "list" else ast.Tuple
+            return ast.copy_location(cls_(elts=n.args[0].elts, ctx=ast.Load()), n)
         if isinstance(n.func, ast.Name) and n.func.id == "list" and len(n.args) == 1 and not n.keywords and isinstance(n.args[0], ast.Call) and not n.args[0].keywords:
             inner = n.args[0]
             fn_ = ast.unparse(inner.func)
